@@ -68,6 +68,7 @@ type lpWorld struct {
 	lastStimulus time.Time // last operation other than a clock advance
 	limitsFresh  bool      // the last operation ended with a pool maintenance cycle
 	tip          uint64
+	knownGap     map[int]bool // accounts whose pending list currently shows the recorded reorg gap
 }
 
 type content struct {
@@ -110,7 +111,7 @@ func errClass(err error) string {
 		{legacypool.ErrAuthorityReserved, "authority-reserved"}, {legacypool.ErrFutureReplacePending, "future-replace-pending"},
 		{core.ErrNonceTooLow, "nonce-low"}, {core.ErrNonceTooHigh, "nonce-high"}, {core.ErrInsufficientFunds, "funds"}, {core.ErrIntrinsicGas, "intrinsic"},
 		{core.ErrFloorDataGas, "floor-gas"}, {core.ErrTipAboveFeeCap, "tip-above-cap"}, {core.ErrGasLimitTooHigh, "gas-too-high"},
-		{core.ErrTxTypeNotSupported, "type"}, {core.ErrMaxInitCodeSizeExceeded, "initcode"},
+		{core.ErrTxTypeNotSupported, "type"},
 	} {
 		if errors.Is(err, s.e) {
 			return s.n
@@ -419,6 +420,8 @@ type opInfo struct {
 	newHead   *simBlock
 	advanced  time.Duration
 	maint     bool // ended with a maintenance cycle (runReorg)
+	dirty     map[common.Address]bool // add: senders of accepted transactions that replaced nothing
+	events    int
 }
 
 func (w *lpWorld) apply(i int, op *LPOp, pre *before) *opInfo {
@@ -444,16 +447,15 @@ func (w *lpWorld) apply(i int, op *LPOp, pre *before) *opInfo {
 			w.tracker.TrackAll(locs)
 		}
 		info.errs = w.tp.Add(info.txs, true)
+		// Add skips the maintenance request only when every transaction failed
+		// the stateless checks (or was already known); an accepted transaction
+		// or a state-level rejection proves that one ran.
 		for _, err := range info.errs {
-			if err == nil {
+			switch errClass(err) {
+			case "ok", "nonce-low", "funds", "inflight-limit", "delegated-gapped", "authority-reserved", "underpriced", "overflow",
+				"replace-underpriced", "future-replace-pending", "reserved":
 				info.maint = true
 			}
-		}
-		// Add returns early (no maintenance request) only when every transaction
-		// failed the stateless checks; a state-level rejection still runs one.
-		info.maint = true
-		for _, err := range info.errs {
-			_ = err
 		}
 		w.lastStimulus = time.Now()
 	case "tip":
@@ -574,6 +576,7 @@ func (w *lpWorld) applyHead(op *LPOp, pre *before, info *opInfo) {
 	}
 	info.newHead = cur
 	info.maint = true
+	info.events = sent + 1
 }
 
 func hashesOf(m map[common.Address][]*types.Transaction, accts []*account) string {
@@ -690,12 +693,31 @@ func (w *lpWorld) check(op *LPOp, info *opInfo, post *before) *simcore.Violation
 	}
 
 	// --- (1) pending: gap-free from the state nonce, every transaction payable
+	gapNow := map[int]bool{}
+	defer func() { w.knownGap = gapNow }()
 	for ai, a := range accts {
 		txs := cont.pending[a.addr]
 		for i, tx := range txs {
 			if want := model[ai].Nonce + uint64(i); tx.Nonce() != want {
-				return simcore.Violf("pending-nonce-gap", "account %d (%x): pending[%d] has nonce %d, expected %d (state nonce %d, pending nonces %v)",
+				v := simcore.Violf("pending-nonce-gap", "account %d (%x): pending[%d] has nonce %d, expected %d (state nonce %d, pending nonces %v)",
 					ai, a.addr[:4], i, tx.Nonce(), want, model[ai].Nonce, noncesOf(txs))
+				// Specific key for the recorded finding: the gap is inside the list
+				// (the front is the state nonce) and showed up in a head change that
+				// moved this account's state nonce back, or is that same gap still open.
+				inside := i > 0
+				wentBack := info != nil && info.newHead != nil && info.newHead.model[ai].Nonce < info.pre.model[ai].Nonce
+				if inside && (wentBack || w.knownGap[ai]) {
+					v.Key = "pending-nonce-gap:after-state-nonce-went-back"
+					v.Msg += " [the gap appeared when a reorg lowered this account's state nonce and a reinjected transaction was rejected]"
+					if simcore.IsKnown(v.Key) {
+						if !w.knownGap[ai] {
+							res.KnownHit(v.Key)
+						}
+						gapNow[ai] = true
+						break
+					}
+				}
+				return v
 			}
 			if from, err := types.Sender(w.signer, tx); err != nil || from != a.addr {
 				return simcore.Violf("pending-sender", "pending list of %x holds a transaction of %x", a.addr[:4], from[:4])
@@ -826,6 +848,14 @@ func (w *lpWorld) check(op *LPOp, info *opInfo, post *before) *simcore.Violation
 				}
 				res.Probe("replacement-accepted")
 			}
+			if old := prev[kk]; old == nil {
+				// certainly not a replacement: the sender is walked (and its queue
+				// capped) by the maintenance cycle of this Add
+				if info.dirty == nil {
+					info.dirty = map[common.Address]bool{}
+				}
+				info.dirty[from] = true
+			}
 			prev[kk] = tx
 		}
 	}
@@ -860,14 +890,7 @@ func (w *lpWorld) check(op *LPOp, info *opInfo, post *before) *simcore.Violation
 			if op.Kind == "head" || op.Kind == "reorg" {
 				capped = true
 			} else if op.Kind == "add" {
-				for j, tx := range info.txs {
-					if info.errs[j] != nil {
-						continue
-					}
-					if from, _ := types.Sender(w.signer, tx); from == a.addr {
-						capped = true
-					}
-				}
+				capped = info.dirty[a.addr]
 			}
 			if !capped {
 				continue
@@ -978,7 +1001,7 @@ func (w *lpWorld) check(op *LPOp, info *opInfo, post *before) *simcore.Violation
 // above the pool's minimum tip, of an undelegated sender without pending
 // authorisations, and the pool had room for every candidate.
 func (w *lpWorld) checkResurrect(op *LPOp, info *opInfo, post *before, union map[common.Hash]*types.Transaction) *simcore.Violation {
-	if op.Kind != "reorg" || info.newHead == nil || len(info.abandoned) == 0 {
+	if op.Kind != "reorg" || info.newHead == nil || len(info.abandoned) == 0 || info.events != 1 {
 		return nil
 	}
 	k := &w.p.Knobs
@@ -986,9 +1009,9 @@ func (w *lpWorld) checkResurrect(op *LPOp, info *opInfo, post *before, union map
 	total := pre.snap.AllSlots
 	var lost []*types.Transaction
 	for _, tx := range info.abandoned {
+		total += numSlots(tx)
 		if !info.adopted[tx.Hash()] {
 			lost = append(lost, tx)
-			total += numSlots(tx)
 		}
 	}
 	if uint64(total) > k.GlobalSlots+k.GlobalQueue {
@@ -998,12 +1021,7 @@ func (w *lpWorld) checkResurrect(op *LPOp, info *opInfo, post *before, union map
 	gasLimit := info.newHead.block.GasLimit()
 	// any set-code transaction around makes the in-flight limits apply in ways
 	// that depend on arrival order: stay out of it.
-	for _, tx := range lost {
-		if tx.Type() == types.SetCodeTxType {
-			return nil
-		}
-	}
-	for _, tx := range union {
+	for _, tx := range info.abandoned {
 		if tx.Type() == types.SetCodeTxType {
 			return nil
 		}
@@ -1023,23 +1041,38 @@ func (w *lpWorld) checkResurrect(op *LPOp, info *opInfo, post *before, union map
 		if model[ai].Deleg || tx.Nonce() != model[ai].Nonce {
 			continue
 		}
-		if tx.Cost().Cmp(model[ai].Balance.ToBig()) > 0 || tx.Gas() > gasLimit || tx.GasTipCap().Cmp(new(big.Int).SetUint64(w.tip)) < 0 {
+		if tx.Gas() > gasLimit || tx.GasTipCap().Cmp(new(big.Int).SetUint64(w.tip)) < 0 {
 			continue
 		}
-		if tx.Size() > legacypool.VerifTxMaxSize {
+		// the pool admits it only if the balance at the new head covers it on top
+		// of what the account already has pending (before the stale ones are dropped)
+		need := new(big.Int).Set(tx.Cost())
+		for _, ptx := range pre.cont.pending[from] {
+			need.Add(need, ptx.Cost())
+		}
+		if need.Cmp(model[ai].Balance.ToBig()) > 0 {
 			continue
 		}
 		// a different transaction with the same nonce may legitimately hold the slot
-		if other, _ := post.cont.find(from, tx.Nonce()); other != nil && other.Hash() != tx.Hash() {
+		if other, _ := pre.cont.find(from, tx.Nonce()); other != nil && other.Hash() != tx.Hash() {
 			continue
 		}
-		// another lost transaction with the same sender and nonce (two abandoned
-		// branches cannot both hold one, but a re-included one can shadow it)
+		dup := false
+		for _, o := range lost {
+			if o != tx && o.Nonce() == tx.Nonce() {
+				if of, _ := types.Sender(w.signer, o); of == from {
+					dup = true
+				}
+			}
+		}
+		if dup {
+			continue
+		}
+		w.res.Probe("resurrect-clause-evaluated")
 		if union[tx.Hash()] == nil {
 			return simcore.Violf("reorg-not-reinjected", "%x (account %d nonce %d, cost %v) was in an abandoned block, is not in the adopted branch, is the sender's next nonce at the new head (balance %v) and the pool had room (%d slots of %d), but it is not in the pool",
 				tx.Hash().Bytes()[:4], ai, tx.Nonce(), tx.Cost(), model[ai].Balance, total, k.GlobalSlots+k.GlobalQueue)
 		}
-		w.res.Probe("resurrect-clause-evaluated")
 		if !post.pending[tx.Hash()] {
 			return simcore.Violf("reorg-not-reinjected", "%x (account %d nonce %d) was reinjected after the reorg and is the sender's next nonce, but it is queued, not pending", tx.Hash().Bytes()[:4], ai, tx.Nonce())
 		}
